@@ -58,6 +58,21 @@ Theorem C14_truth_table_preserved : forall c fresh c' a,
   forall vs, Forall2 (Eval c' a) (outputs c') vs <-> Forall2 (Eval c a) (outputs c) vs.
 Proof. exact into_bench_outputs_sem'. Qed.
 
+(* the same at the entry points: FULL statement would be
+     get_truth_table c' = get_truth_table c   (as results);
+   proved: whenever both calls return, the tables (and the results of evaluate on every Boolean
+   input vector) are equal.  Missing: that the call on c' returns whenever the call on c does
+   (completeness of the evaluators, the other half of C01). *)
+Theorem C14_evaluate_partial : forall c fresh c' bs r r',
+  Inv c -> arity_ok c -> into_bench c fresh = Ok c' ->
+  evaluate c (map inj bs) = Ok r -> evaluate c' (map inj bs) = Ok r' -> r = r'.
+Proof. exact into_bench_evaluate'. Qed.
+
+Theorem C14_get_truth_table_partial : forall c fresh c' t t',
+  Inv c -> arity_ok c -> into_bench c fresh = Ok c' ->
+  get_truth_table c = Ok t -> get_truth_table c' = Ok t' -> t = t'.
+Proof. exact into_bench_truth_table'. Qed.
+
 (* only INPUT, NOT, AND, OR, NAND, NOR, XOR, NXOR and buffer (IFF) gates remain *)
 Theorem C14_bench_basis : forall c fresh c',
   Inv c -> arity_ok c -> into_bench c fresh = Ok c' ->
